@@ -65,7 +65,10 @@ def main(argv=None):
             # a violation found so far explains why a later kernel can no longer be modelled
             chk.info("analysis stopped early after the violation(s) above: %s" % e)
             chk.min_counts.clear()
-        if tier == "thorough" and not a.no_evidence and not chk.violations:
+        from sa.report import load_known as _lk
+
+        _known = _lk(pid)
+        if tier == "thorough" and not a.no_evidence and not [v for v in chk.violations if v["key"] not in _known]:
             # second half of the thorough tier: the rules of this property must still fire on every
             # seeded one-site break and stay silent on every behaviour-preserving twin
             from sa import selftest
